@@ -1152,10 +1152,12 @@ func (p *Parser) parseWith(stmt *SelectStatement) error {
 					timeUnit = time.Hour
 				case "mi":
 					timeUnit = time.Minute
-				case "ss":
+				case "ss", "s":
 					timeUnit = time.Second
 				case "ms":
 					timeUnit = time.Millisecond
+				case "us":
+					timeUnit = time.Microsecond
 				case "ns":
 					timeUnit = time.Nanosecond
 				default:
